@@ -2,9 +2,11 @@ package nfa
 
 import (
 	"unicode/utf8"
+	"unsafe"
 
 	"github.com/coregx/coregex/internal/conv"
 	"github.com/coregx/coregex/internal/sparse"
+	"github.com/coregx/coregex/verifhook"
 )
 
 // SearchMode determines how many capture slots to track during search.
@@ -290,6 +292,11 @@ func NewPikeVMLazy(nfa *NFA) *PikeVM {
 // ensureInternalState lazily initializes the internal PikeVMState if needed.
 // Called at the entry point of every search method that uses internalState.
 func (p *PikeVM) ensureInternalState() {
+	if verifhook.On {
+		// entry of a search that uses this PikeVM's mutable scratch
+		verifhook.Emit("scr.begin", int(uintptr(unsafe.Pointer(p))), 1)
+		verifhook.Gate("scr", uintptr(unsafe.Pointer(p)))
+	}
 	if p.internalState.Visited == nil {
 		p.initState(&p.internalState)
 	}
